@@ -270,7 +270,7 @@ def evaluate_z3_seq_in_re(
 
     return Some(
         construct_result(
-            lambda args: re.match(f"^{args[1]}$", args[0]) is not None,
+            lambda args: re.fullmatch(args[1], args[0], re.DOTALL) is not None,
             children_results,
         )
     )
